@@ -561,7 +561,7 @@ def rule_k(F):
             last2 = doms[-2:]
             fields = [row_field(pt["args"][1]) for _pb, pt in last2]
             sites.append((f, t.get("ln"), fields))
-    if len(sites) < 3:
+    if len(sites) < 2:
         raise AnchorMissing("callback sites (run_function) in native_minmax / native_sorted (found %d)" % len(sites))
     orders = set(tuple(x[2]) for x in sites)
     key = "C09/K/natives/callbacks-get-the-row-in-one-order"
@@ -746,6 +746,30 @@ def rule_a(F):
         problems.append("the key of the inserted row is not enumerate's index as it is")
     if val_id is None or hir_local_id(a1) != val_id:
         problems.append("the inserted value is not the row's value (second field of the row)")
+    # every result of the Table arm is the freshly built table: no path hands the input (or anything else) back
+    params = f.hir.get("params", [])
+    it = next((p_ for p_ in params if p_.get("k") == "bind" and p_.get("name") == "iterable"), None)
+    fresh = set()
+    for lid, es in hu.let_inits(f).items():
+        if any(y.get("k") == "mcall" and y["name"] == "init_table" for e_ in es for y in hir_walk(e_)):
+            fresh.add(lid)
+    table_arm = None
+    for m in hir_walk(f.hir["body"]):
+        if m.get("k") == "match":
+            for a in m["arms"]:
+                if "Table" in [v[0].rsplit("::", 1)[-1] for v in pat_variants(a["pat"])]:
+                    table_arm = a
+    if table_arm is None or it is None or not fresh:
+        raise AnchorMissing("Table arm / input parameter / init_table in native_to_array")
+    for y in hir_walk(table_arm["body"]):
+        if y.get("k") == "call" and any(n_.endswith("::Ok") for n_ in hir_callee(y)) and y.get("args"):
+            locs = set(z["path"]["res"]["id"] for z in hir_walk(y["args"][0]) if z.get("k") == "path" and z["path"]["res"].get("k") == "local")
+            if not locs:
+                continue       # Ok(()) of a `?`
+            if it["id"] in locs or not (locs & fresh):
+                problems.append("a path of the table case returns %s instead of the freshly built table (a shortcut for inputs that "
+                                "'already are arrays' keeps the input's row order and aliases the input)"
+                                % ("the input itself" if it["id"] in locs else "another value"))
     if problems:
         res.append(bad("C09.A", key, f.loc(ins[0].get("ln")), "std.to_array: %s - the result is not the input's values re-keyed 0..n-1 in order" % "; ".join(problems)))
     else:
